@@ -10,8 +10,8 @@ PeerAddrsF(c, i) == Counted(6, 4, 7, 256, c, i)
 LocatorF(c, i) == Counted(7, 1, 32, 20, c, i)
 CountedKinds == {PeerAddrsF(0, 0), PeerAddrsF(1, 1), PeerAddrsF(3, 3), PeerAddrsF(256, 256),
                  LocatorF(0, 0), LocatorF(1, 1), LocatorF(20, 20)}
-\* an honest empty list is kept apart: see EmptyHeaders below
-HeadersKinds == {HeadersF(n, n, 0) : n \in {1, 31, 32, 33, 64}}
+\* n = 0: what `locate_headers` answers when it has nothing newer
+HeadersKinds == {HeadersF(n, n, 0) : n \in {0, 1, 31, 32, 33, 64}}
 EmptyHeaders == HeadersF(0, 0, 0)
 ArchiveKinds == {Archive(a) : a \in {0, 1, 47999, 48000, 48001, 96001}}
 UnknownKinds == {Unknown(99, 0), Unknown(99, 1), Unknown(250, 40), Unknown(200, Limit(200))}
@@ -43,7 +43,7 @@ Refused == OverLimit \cup Huge \cup BadMagic \cup BadCount \cup Unexpected
 AllKinds == Honest \cup Refused \cup AtLimit \cup Trailing
 \* small alphabets for the longer streams
 Core == {Ping, PeerAddrsF(3, 3), HeadersF(33, 33, 0), Archive(48001), Unknown(250, 40), HeadersF(1, 1, 0)}
-Lead == {Ping, HeadersF(33, 33, 0), Archive(1), Unknown(99, 1)}
+Lead == {Ping, HeadersF(33, 33, 0), Archive(1), Unknown(99, 1), EmptyHeaders}
 
 SeqsOf(K, n) == [1..n -> K]
 Singles == SeqsOf(AllKinds, 1)
@@ -52,10 +52,10 @@ AfterLead == {<<a, b>> : a \in Lead, b \in Refused \cup AtLimit \cup Trailing}
 Deep == SeqsOf(Core, 3) \cup SeqsOf(Core, 4)
 Deep3 == SeqsOf(Core, 3)
 
-StreamsQuick == Singles \cup AfterLead \cup SeqsOf(Core, 2) \cup Deep3
-StreamsFull == Singles \cup Pairs \cup AfterLead \cup Deep
-\* the honest empty header list (what `locate_headers` answers when it has nothing newer)
-StreamsEmpty == {<<EmptyHeaders>>, <<Ping, EmptyHeaders, Ping>>}
+AroundEmpty == {<<EmptyHeaders, b>> : b \in Honest} \cup {<<a, EmptyHeaders>> : a \in Honest}
+                  \cup {<<Ping, EmptyHeaders, Ping>>, <<EmptyHeaders, EmptyHeaders, HeadersF(33, 33, 0)>>}
+StreamsQuick == Singles \cup AfterLead \cup SeqsOf(Core, 2) \cup Deep3 \cup AroundEmpty
+StreamsFull == Singles \cup Pairs \cup AfterLead \cup Deep \cup AroundEmpty
 
 \* Case generator: one line per stream with what the property demands of it.
 RECURSIVE StartsOf(_, _)
